@@ -1011,7 +1011,7 @@ impl PathSeg {
                         }
                     }
                 }
-                0
+                self.winding_at_nearer_end(p, sign)
             }
             PathSeg::Cubic(cubic) => {
                 let p1 = cubic.p1;
@@ -1036,8 +1036,26 @@ impl PathSeg {
                         }
                     }
                 }
-                0
+                self.winding_at_nearer_end(p, sign)
             }
+        }
+    }
+
+    // The piece spans the row of `p` (half-open rule), so it crosses that row; when no root of
+    // y(t) = p.y in [0, 1] survives rounding in the solver (typically for `p.y` equal or next to
+    // the ordinate of an end point), the crossing is at the end point whose ordinate is nearer.
+    fn winding_at_nearer_end(&self, p: Point, sign: i32) -> i32 {
+        let start = self.start();
+        let end = self.end();
+        let x = if (p.y - start.y).abs() <= (p.y - end.y).abs() {
+            start.x
+        } else {
+            end.x
+        };
+        if p.x >= x {
+            sign
+        } else {
+            0
         }
     }
 
